@@ -131,9 +131,9 @@ def k_dimension(n):
     return (3 * n - 3, -1, 1 - n)
 
 
-# ---- printer used by the enumeration (three spacing styles) ---------------------------------------
+# ---- printer used by the enumeration (four spacing styles) ---------------------------------------
 
-STYLES = ("single", "extra", "minimal")
+STYLES = ("single", "extra", "minimal", "tab")
 
 
 def _term_text(coef, label, gap):
@@ -146,7 +146,8 @@ def write(left, right, style):
     """Text of an equation whose sides are lists of (coefficient or None, label).
     single : 'a A + b B -> c C'           one blank between all tokens
     extra  : tabs and several blanks around every token, leading and trailing blanks
-    minimal: no blank except the one a coefficient needs before its label"""
+    minimal: no blank except the one a coefficient needs before its label
+    tab    : one tab, no blank, between all tokens"""
     if style == "single":
         return " + ".join(_term_text(c, l, " ") for c, l in left) + " -> " + \
                " + ".join(_term_text(c, l, " ") for c, l in right)
@@ -156,6 +157,10 @@ def write(left, right, style):
                 return " \t "
             return "\t  " + "  +\t".join(_term_text(c, l, " \t ") + " " for c, l in ts) + "\t"
         return side(left) + "->" + side(right)
+    if style == "tab":
+        # a single tab (no blank) wherever 'single' has a blank: column-aligned text
+        return "\t+\t".join(_term_text(c, l, "\t") for c, l in left) + "\t->\t" + \
+               "\t+\t".join(_term_text(c, l, "\t") for c, l in right)
     if style == "minimal":
         return "+".join(_term_text(c, l, " ") for c, l in left) + "->" + \
                "+".join(_term_text(c, l, " ") for c, l in right)
